@@ -17,14 +17,19 @@ from props import c19
 
 WHERE = {
     "KF-C19-a": "preflibtools/properties/subdomains/ordinal/euclidean.py:344 (is_one_euclidean)",
-    "KF-C19-b": "preflibtools/properties/subdomains/ordinal/euclidean.py:330-376 (is_one_euclidean, _one_euclidean_gen_sets)",
+    "KF-C19-b": "preflibtools/properties/subdomains/ordinal/euclidean.py:149-196, 371-382 (_one_euclidean_gen_sets, "
+                "placement loop `for i in range(1, k)` of is_one_euclidean)",
     "KF-C19-c": "preflibtools/properties/subdomains/ordinal/euclidean.py:212-256 (is_one_euclidean)",
     "KF-C19-d": "preflibtools/properties/subdomains/ordinal/euclidean.py (is_one_euclidean)",
 }
 WHAT = {
     "KF-C19-a": "is_one_euclidean raises ValueError (max() of an empty list) on every profile with a single distinct order",
-    "KF-C19-b": "is_one_euclidean answers True with a position map that does not realise the votes: alternatives "
-                "missing from the map or placed so that some voter's distances are not strictly increasing",
+    "KF-C19-b": "is_one_euclidean answers True with a position map that does not realise the votes whenever an "
+                "uncoloured ('grey') alternative is ranked by the first voter of the single-crossing order above "
+                "some coloured alternative, so that _one_euclidean_gen_sets builds more than one F/G group (k > 1): "
+                "the grey alternatives of the later groups are left out of the map or placed at a wrong distance "
+                "(e.g. every profile whose voters share their top alternative and disagree further down, such as "
+                "(1,2,3,4),(1,2,4,3)); the verdict itself is right",
     "KF-C19-c": "is_one_euclidean's verdict is wrong and depends on which ballots are stored first and last: True "
                 "on profiles that are not 1-Euclidean (not single-peaked / not single-crossing, or no embedding by "
                 "the exact reference), different verdicts for storage orders of one profile, False on a "
@@ -32,6 +37,28 @@ WHAT = {
     "KF-C19-d": "is_one_euclidean raises an exception other than the single-order ValueError",
 }
 KIND = {"KF-C19-a": c19.K_EXC, "KF-C19-b": c19.K_WIT, "KF-C19-c": c19.K_VER, "KF-C19-d": c19.K_EXC}
+
+
+# repaired in /repo after the first C19 campaign (their minimised inputs are in corpus/C19/)
+FIXED = [
+    ("KF-C19-c", "5a8bee2", "euclidean.py is_one_euclidean",
+     "is_one_euclidean took the first and last STORED ballots as the ends of the single-crossing order: True on "
+     "profiles that are not 1-Euclidean, verdict depending on the storage order"),
+    ("KF-C19-a", "3211aad", "euclidean.py is_one_euclidean",
+     "is_one_euclidean raised ValueError (max() of an empty list) on every profile with a single distinct order"),
+    ("KF-C19-b1", "4ca33bd", "euclidean.py is_one_euclidean",
+     "is_one_euclidean placed the first group of grey alternatives in set iteration order instead of the first "
+     "voter's order: True with a map that does not realise the votes"),
+    ("KF-C19-b", "74e9e2c", "euclidean.py _one_euclidean_gen_sets / is_one_euclidean",
+     "is_one_euclidean answered True with a map that does not realise the votes whenever a grey alternative is ranked by "
+     "the first voter of the single-crossing order above some coloured alternative (several F/G groups: runs not computed, "
+     "overlapping distance bands, alternatives without a position); smallest input (1,2,3,4),(1,2,4,3)"),
+]
+
+
+def fixed_entries():
+    return [{"id": i, "property": "C19", "status": "fixed", "commit": c, "where": w, "what": t,
+             "line": "fixed: property=C19 %s %s" % (c, t)} for i, c, w, t in FIXED]
 
 
 def run_tier(tier):
@@ -74,14 +101,14 @@ def main(argv):
     os.makedirs(outdir, exist_ok=True)
     with open(os.path.join(outdir, "C19.json"), "w") as fh:
         json.dump({"comment": "generated by harness/props/c19_known.py from the deterministic C19 campaign "
-                              "(quick + thorough) on the pinned tree; regenerate if /repo changes",
-                   "findings": findings}, fh, indent=1)
+                              "(quick + thorough) on the current /repo; regenerate if /repo changes",
+                   "findings": fixed_entries() + findings}, fh, indent=1)
         fh.write("\n")
     if "--install" in argv:
         kf = os.path.join(oracle.VERIF, "known_findings.json")
         doc = json.load(open(kf))
-        doc["findings"] = [e for e in doc["findings"] if not (e.get("property") == "C19" and e.get("status") == "open")]
-        doc["findings"].extend(findings)
+        doc["findings"] = [e for e in doc["findings"] if e.get("property") != "C19"]
+        doc["findings"].extend(fixed_entries() + findings)
         with open(kf, "w") as fh:
             json.dump(doc, fh, indent=1)
             fh.write("\n")
